@@ -47,6 +47,13 @@ func (p *Program) allFunctions() []*ssaFn {
 			}
 		}
 	}
+	if p.Tool != nil {
+		for _, m := range p.Tool.Members {
+			if v, ok := m.(*ssa.Function); ok && v.Name() != "init" {
+				add(v)
+			}
+		}
+	}
 	sort.Slice(out, func(i, j int) bool { return out[i].fn.Pos() < out[j].fn.Pos() })
 	return out
 }
